@@ -4,13 +4,17 @@ CONSTANTS
   MaxVer = 2
   MaxReorgs = 2
   MaxCrashes = 0
-  Gated = TRUE
+  Gates = {"att", "prop"}
+  Interleave = FALSE
   Cfgs <- CfgsGated
   OraclesFor <- SeedOracles
   ScenLen = 24
   Seeds = {1, 2, 3, 4, 5, 6, 7, 8}
   StartSlots = {2, 3}
   MaxHeads = 3
-  Directed = FALSE
+  Stimuli = {"Start", "Crash", "Advance", "EpochTick", "Reorg", "HeadEvent", "Fire", "Hold", "Unhold", "Release"}
+  MaxHolds = 99
+  Focus = FALSE
+  Disjoint = FALSE
 INVARIANTS Emit
 CHECK_DEADLOCK FALSE
